@@ -29,11 +29,11 @@ META = {
         'only under `not self.raw` and convert() is applied in both modes; C02.DISPATCH - a data row is recognised by the '
         'upper-cased first word; C02.BINARY - text from a file object whose mode contains b is decoded before parsing; '
         'C02.CONT - the continuation-joining pattern tolerates CR (and blanks) between the backslash and the newline; '
-        'C02.INTCONV - integer cells are converted by int() on the token text. NOT decided: comment/quote parity, '
+        'C02.COMMENT-FIRST - comment-only lines are discarded before tokenising; C02.INTCONV - integer cells are converted by int() on the token text. NOT decided: comment/quote parity, '
         'token splitting, interleaved rows, char[] sizing, CRLF handling beyond the continuation pattern - these are '
         'statements about the language the regex chain accepts.'),
     'floors': {'C02.NAME-EXACT': 1, 'C02.PAT-PAIR': 2, 'C02.ANGLE': 8, 'C02.RAW': 2, 'C02.DISPATCH': 1, 'C02.BINARY': 1,
-               'C02.CONT': 1, 'C02.INTCONV': 4},
+               'C02.CONT': 1, 'C02.INTCONV': 4, 'C02.COMMENT-FIRST': 1},
 }
 
 
@@ -260,8 +260,17 @@ def check_raw(ctx, yc):
 def check_dispatch(ctx, yc):
     f = yc.method('_parse')
     fa = FA(f)
-    disp = [c for c in walk_local(f.node) if isinstance(c, ast.Compare) and len(c.ops) == 1 and isinstance(c.ops[0], ast.In)
-            and src(c.comparators[0]) == 'self._symbols' and isinstance(getattr(c, '_parent', None), ast.If)]
+    # the row branch: the If whose body feeds cells through self.convert() into the table
+    disp = []
+    for n in walk_local(f.node):
+        if isinstance(n, ast.If) and any(isinstance(c, ast.Call) and isinstance(c.func, ast.Attribute) and c.func.attr == 'convert' for b in n.body for c in ast.walk(b)) \
+                and any(isinstance(c, ast.Compare) and isinstance(c.ops[0], ast.In) for c in ast.walk(n.test)) and not any(
+                    isinstance(a, ast.If) and a is not n and any(isinstance(c, ast.Call) and isinstance(c.func, ast.Attribute) and c.func.attr == 'convert'
+                                                                 for b in a.body for c in ast.walk(b)) and any(n is x for x in ast.walk(a)) and isinstance(a.test, ast.Compare)
+                    and isinstance(a.test.ops[0], ast.In) for a in ancestors(n)):
+            cs = [c for c in ast.walk(n.test) if isinstance(c, ast.Compare) and isinstance(c.ops[0], ast.In)]
+            disp.extend(cs[:1])
+            break
     ctx.need(disp, '_parse: row dispatch test not found')
     for c in disp:
         ok = upper_derived(c.left, fa)
@@ -301,7 +310,13 @@ def check_binary(ctx, yc):
 def check_cont(ctx, yc):
     f = yc.method('_parse')
     lits = rx.regex_literals(f.node)
-    cont = [(c, p) for c, fn, p, _ in lits if fn == 'sub' and p.startswith('\\\\')]
+    def has_cont(p):
+        try:
+            items = rx.normal(p)
+        except Exception:
+            return False
+        return ('LITERAL', 92) in items and ('LITERAL', 10) in items
+    cont = [(c, p) for c, fn, p, _ in lits if fn == 'sub' and has_cont(p)]
     ctx.need(cont, '_parse: continuation-joining re.sub not found')
     for c, p in cont:
         items = rx.normal(p)
@@ -314,9 +329,46 @@ def check_cont(ctx, yc):
         repl = try_fold(c.args[1]) if len(c.args) > 1 else None
         ctx.check('C02.CONT', ok and repl == ' ', f, c,
                   'continuation lines: backslash, any blanks/tabs/CR, newline are replaced by one blank (%r)' % p,
-                  msg='the continuation-joining pattern %r does not accept blanks, tabs and CR between the backslash and the '
-                      'newline (CRLF files with continued rows would read differently)' % p,
+                  msg='the continuation-joining pattern %r is not exactly "backslash, any blanks/tabs/CR, newline" replaced by one blank: it either '
+                      'misses CR before the newline (CRLF files with continued rows read differently) or swallows blanks that belong to the cells '
+                      'around the continuation' % p,
                   construct='continuation pattern %r' % p)
+
+
+def check_comment_first(ctx, yc):
+    """Comment-only lines are discarded before any tokenising: a `^\\s*#` test with `continue` precedes get_token in the line loop."""
+    f = yc.method('_parse')
+    fa = FA(f)
+    toks = [c for c in walk_local(f.node) if isinstance(c, ast.Call) and isinstance(c.func, ast.Attribute) and c.func.attr == 'get_token'
+            and any(isinstance(a, ast.For) and 'split' in src(a.iter) for a in ancestors(c))]
+    ctx.need(toks, '_parse: tokenising call in the line loop not found')
+    loop = next(a for a in ancestors(toks[0]) if isinstance(a, ast.For) and 'split' in src(a.iter))
+    line = loop.target.id
+    found = None
+    for st in loop.body:
+        if isinstance(st, ast.If) and st.body and isinstance(st.body[-1], ast.Continue):
+            t = st.test
+            for c in ast.walk(t):
+                if isinstance(c, ast.Call) and isinstance(c.func, ast.Attribute) and c.func.attr in ('search', 'match') and c.args and src(c.args[-1]) == line:
+                    pat = None
+                    recv = c.func.value
+                    if isinstance(recv, ast.Name):
+                        d = fa.resolve(recv)
+                        if d is not None and isinstance(d, ast.Call) and d.args and isinstance(d.args[0], ast.Constant):
+                            pat = d.args[0].value
+                    elif len(c.args) == 2 and isinstance(c.args[0], ast.Constant):
+                        pat = c.args[0].value
+                    if pat is not None:
+                        items = rx.normal(pat)
+                        if len(items) >= 2 and items[-1] == ('LITERAL', 35) and all(i[0] in ('AT', 'MAX_REPEAT') for i in items[:-1]):
+                            found = st
+                if isinstance(c, ast.Call) and isinstance(c.func, ast.Attribute) and c.func.attr == 'startswith' and c.args and try_fold(c.args[0]) == '#' \
+                        and line in src(c.func.value) and ('strip' in src(c.func.value) or 'lstrip' in src(c.func.value)):
+                    found = st
+    ok = found is not None and found.lineno < toks[0].lineno
+    ctx.check('C02.COMMENT-FIRST', ok, f, found or loop, 'comment-only lines (^\\s*#) are skipped before the line is tokenised',
+              msg='_parse no longer discards comment-only lines before tokenising: a comment line with more than one # or an odd number of quotes is stored '
+                  'as a keyword pair', construct='comment-line filter')
 
 
 def run(ctx):
@@ -330,6 +382,7 @@ def run(ctx):
     check_dispatch(ctx, yc)
     check_binary(ctx, yc)
     check_cont(ctx, yc)
+    check_comment_first(ctx, yc)
     # INTCONV shared with C01 (same rule function, reported under C02's rule id)
     sub = type(ctx)(ctx.prop, ctx.repo, ctx.tier)
     check_intconv(sub, yc)
